@@ -82,6 +82,7 @@ def bnseq_case(rng):
 
 def cases(rng, tier):
     out = []
+    gen_ops.WIDE_LEVELS = True
     per = 14 if tier == 'quick' else 400
     for op in gen_ops.OPS_NN:
         for _ in range(per * (2 if op in ('fold', 'conv2d', 'max_pool2d') else 1)):
